@@ -108,11 +108,11 @@ def off_duty(ctx, P, views, iters):
                             if e.d["value"] != "True" or rules.path_condition(evs, i).get(("truth", x + ".busy")) is not True:
                                 reason, msg = "offduty-mark", "only a busy server is marked offduty (True): it finishes its customer as overtime"
                     # per loop iteration over the servers: the branch taken must do one of the two
-                    it_idx = [i for i, e in enumerate(evs) if e.kind == "iter" and isinstance(e.node, ast.For) and unparse(e.node.iter) == "self.servers"]
+                    it_idx = [i for i, e in enumerate(evs) if e.kind == "iter" and isinstance(e.node, ast.For) and e.d.get("iter") == "self.servers"]
                     for k, i in enumerate(it_idx):
                         j = it_idx[k + 1] if k + 1 < len(it_idx) else len(evs)
                         seg = evs[i + 1:j]
-                        var_ = unparse(evs[i].node.target)
+                        var_ = unparse(evs[i].node.target) + evs[i].frame.tag
                         bf = rules.path_condition(seg).get(("truth", var_ + ".busy"))
                         if bf is None:
                             reason, msg = "busy-server-not-marked", "each server of the old shift must be tested busy/idle"
@@ -125,17 +125,16 @@ def off_duty(ctx, P, views, iters):
                             reason, msg = "idle-server-kept", "an idle server of the old shift must be deleted"
                     if any(e.d["meth"] == "interrupt_service" for i, e in calls):
                         reason, msg = "interrupt-without-preemption", "non-pre-emptive schedule: services in progress must not be interrupted"
-                    kills = [e for e in evs if e.kind == "iter" and isinstance(e.node, ast.For) and unparse(e.node.iter) in dellists]
-                    if dellists and not any(isinstance(e.node, ast.For) and unparse(e.node.iter) in dellists for e in evs if e.kind in ("iter", "loopexit")):
+                    if dellists and not any(isinstance(e.node, ast.For) and e.d.get("iter") in dellists for e in evs if e.kind in ("iter", "loopexit")):
                         reason, msg = "idle-server-kept", "the servers put on the delete list must be killed"
                 else:
-                    it_idx = [i for i, e in enumerate(evs) if e.kind == "iter" and isinstance(e.node, ast.For) and unparse(e.node.iter) == "self.servers"]
+                    it_idx = [i for i, e in enumerate(evs) if e.kind == "iter" and isinstance(e.node, ast.For) and e.d.get("iter") == "self.servers"]
                     for k, i in enumerate(it_idx):
                         j = it_idx[k + 1] if k + 1 < len(it_idx) else len(evs)
                         seg = evs[i + 1:j]
                         hascust = [g for g in seg if g.kind == "guard" and ".cust" in g.text]
                         ints = [x for x in seg if x.kind == "call" and x.d["meth"] == "interrupt_service"]
-                        var = unparse(evs[i].node.target)
+                        var = unparse(evs[i].node.target) + evs[i].frame.tag
                         if hascust:
                             f = {}
                             guards.assume(hascust[0].d["formula"], hascust[0].pol, f)
@@ -148,7 +147,11 @@ def off_duty(ctx, P, views, iters):
                     done.add((cls.name, reason))
                     ctx.violation(ob, "R4.off-duty", "%s.take_servers_off_duty" % cls.name, name, reason, msg, loc(fn), witness(st))
         # shift_end recorded for overtime
-    # interrupt_service only for customers in service
+    interrupt_in_service(ctx, P, views, iters)
+    interrupted_sorted(ctx, P, views, iters)
+
+
+def interrupt_in_service(ctx, P, views, iters):
     ob2 = ctx.ob("INTSVC", "interrupt_service(I) is applied only to customers in service (a server's cust tested not False, or the service_start_date filter)")
     for view in views:
         for m in view.methods():
@@ -171,6 +174,47 @@ def off_duty(ctx, P, views, iters):
             for e, st in bad.values():
                 ctx.violation(ob2, "R13.interrupt-in-service", "%s.%s" % (cls.name, m), unparse(e.node), "interrupt-not-in-service",
                               "interrupt_service must only be applied to a customer that is in service", e.where, witness(st))
+
+
+def interrupted_sorted(ctx, P, views, iters):
+    """the interrupted queue is restarted from its head: after a pre-emptive shift end has added customers it must be re-sorted as a whole by
+    (priority_class, arrival_date) -- customers left from an earlier shift included"""
+    ob = ctx.ob("SORTI", "take_servers_off_duty: every path that interrupts a service sorts interrupted_individuals afterwards, by (priority_class, arrival_date)")
+    for view in views:
+        if "PSNode" in view.mro:
+            continue
+        cls, fn = view.method("take_servers_off_duty")
+        w = Walker(P, view, keep=lambda e: e.kind == "call" and (e.d["meth"] in ("interrupt_service", "sort_interrupted_individuals") or
+                                                                    (e.d["meth"] == "sort" and (e.d.get("recv") or "").endswith("interrupted_individuals"))),
+                   inline=rules.new_helper, loop_iters=iters)
+        bad = None
+        n = 0
+        for st in w.paths_of(cls, fn):
+            if st.status == "raise":
+                continue
+            ms = [e.d["meth"] for e in st.events]
+            if "interrupt_service" in ms:
+                n += 1
+                last_int = max(i for i, m_ in enumerate(ms) if m_ == "interrupt_service")
+                if not any(m_ in ("sort_interrupted_individuals", "sort") for m_ in ms[last_int + 1:]):
+                    bad = bad or st
+        ob.ok("%s.take_servers_off_duty" % view.name, "%d interrupting path(s)" % n)
+        if bad is not None:
+            ctx.violation(ob, "R4.must-follow", "%s.take_servers_off_duty" % cls.name, "sort_interrupted_individuals()", "interrupted-queue-not-sorted",
+                          "customers interrupted at this shift end join interrupted_individuals but the list is not re-sorted: those left over from an earlier shift end keep "
+                          "their old positions, so a lower-priority or later customer restarts first", loc(fn), witness(bad))
+        r = view.resolve("sort_interrupted_individuals")
+        if r is not None:
+            keys = [unparse(k.value).replace(" ", "") for x in ast.walk(r[1]) if isinstance(x, ast.Call) and call_name(x) in ("sort", "sorted") for k in x.keywords if k.arg == "key"]
+            rev = [unparse(k.value) for x in ast.walk(r[1]) if isinstance(x, ast.Call) and call_name(x) in ("sort", "sorted") for k in x.keywords if k.arg == "reverse"]
+            okk = len(keys) == 1 and rev in ([], ["False"])
+            if okk:
+                lam = [x for x in ast.walk(r[1]) if isinstance(x, ast.Lambda)]
+                okk = len(lam) == 1 and len(lam[0].args.args) == 1 and unparse(lam[0].body).replace(" ", "") == "(%s.priority_class,%s.arrival_date)" % (lam[0].args.args[0].arg, lam[0].args.args[0].arg)
+            ob.ok("%s.sort_interrupted_individuals" % view.name, "; ".join(keys))
+            if not okk:
+                ctx.violation(ob, "R4.must-follow", "%s.sort_interrupted_individuals" % r[0].name, "; ".join(keys) or "sort key", "interrupted-sort-key",
+                              "interrupted customers restart in (priority_class, arrival_date) order", loc(r[1]))
 
 
 def _in_service_element(evs, i, arg, frame):
@@ -283,14 +327,18 @@ def slots(ctx, P, views, iters):
         cls, fn = view.method("find_number_of_slotted_services")
         A = "min(max(0,self.schedule.slot_size-self.number_in_service),self.number_of_individuals)"
         B = "min(self.number_of_individuals,self.schedule.slot_size)"
-        w0 = Walker(P, view, keep=lambda e: e.kind in ("guard", "return"), track=lambda t, f: True, inline=rules.new_helper)
+        w0 = Walker(P, view, keep=lambda e: e.kind in ("guard", "return") or (e.kind == "assign" and e.d.get("local")), track=lambda t, f: True, inline=rules.new_helper)
         forms, bad_branch, nret = set(), None, 0
         for st in w0.paths_of(cls, fn):
             rv = [e for e in st.events if e.kind == "return" and e.frame.depth == 0]
             if st.status == "raise" or not rv or rv[-1].d.get("value_node") is None:
                 continue
             nret += 1
-            form = _canon_minmax(rv[-1].d["value_node"])
+            ridx = max(i for i, e in enumerate(st.events) if e is rv[-1])
+            try:
+                form = _canon_minmax(ast.parse(rules.path_text(st.events, ridx, rv[-1].d["value_node"], rv[-1].frame), mode="eval").body)
+            except SyntaxError:
+                form = _canon_minmax(rv[-1].d["value_node"])
             forms.add(form)
             cap = rules.path_condition(st.events, len(st.events)).get(("truth", "self.schedule.capacitated"))
             if (form == _canon_minmax(ast.parse(A, mode="eval").body)) != (cap is True) or cap is None:
@@ -398,7 +446,7 @@ def event_tables(ctx, P, views):
         cls, fn = view.method("decide_next_event")
         ranked = set()
         for x in ast.walk(fn):
-            if isinstance(x, ast.For) and isinstance(x.iter, ast.List):
+            if isinstance(x, ast.For) and isinstance(x.iter, (ast.List, ast.Tuple)):
                 ranked |= {el.value for el in x.iter.elts if isinstance(el, ast.Constant)}
         cls2, fn2 = view.method("have_event")
         want = {"end_service": "finish_service", "shift_change": "change_shift", "renege": "renege", "class_change": "change_customer_class_while_waiting", "slotted_service": "slotted_service"}
